@@ -1,4 +1,5 @@
 #!/bin/bash
 # run inside `vp run --with-repo`: checks every given seed against the snapshot of /repo
+# each argument: <seed-id>[:<prop>,<prop>...]  (default: every claimed property)
 export VERIF_REPO=${VP_RUN_REPO:-/repo}
-for s in "$@"; do echo "=== seed $s"; python3 tools/seedtest.py $s; done
+for a in "$@"; do s=${a%%:*}; p=""; [ "$a" != "$s" ] && p=$(echo ${a#*:} | tr ',' ' '); echo "=== seed $s"; python3 tools/seedtest.py $s $p; done
